@@ -4,12 +4,18 @@ same argv) against PewModel/Cli.lean (mechanism `run`, specification `specRun`).
 An abstract case names the sub-command, its options, where the output goes and the inputs (format, name, shape,
 elements, a seed for the values).  `evaluate`
   1. writes the inputs under ctx.tmpdir() with the pluggable writers below (FORMATS),
-  2. loads every input with the library loader of its format (the "equivalent direct library call") and, for
-     `filter`, applies the library filter directly to every field — these values are the abstract description
-     sent to the driver (value = float64 bit pattern, NaN canonical),
-  3. runs the command line (in process or as a subprocess) and observes ONLY the files it wrote or changed,
-     loaded back with `io.npz.load` / `io.textimage.load`,
-  4. compares with the driver's `run` (model) and `specRun` (specification).
+  2. asks the library what `load` can ask about every path (is_dir, the two directory predicates, the Thermo sniffer,
+     load_info) and the DRIVER (`c20.plan`: the table of `PewModel/Cli.lean`) which library loaders are candidates for
+     it; calls exactly those loaders directly (the "equivalent direct library calls": data, parameters, or the
+     exception class) and, for `filter`, applies the library filter directly to every field — these values are the
+     abstract description sent to the driver (value = float64 bit pattern, NaN canonical).  Python never chooses a loader.
+  2b. calls `pewlib.__main__.load(path)` itself for every input and compares the image it returns (or that it fails) with
+     the driver's `loadMech` / `loadSpec` of that path,
+  3. runs the command line (in process or as a subprocess) and observes the files it wrote or changed, loaded back
+     with `io.npz.load` / `io.textimage.load` / the .vti reader of harness/c16.py; in-process runs also record, through
+     thin delegating wrappers around the six library loaders, which loader delivered each input,
+  4. compares with the driver's `mainRun` (model: load dispatch as the code branches, configuration overlay, run) and
+     `specMain` (specification: table of supported inputs, configuration rule, `specRun`).
 """
 from __future__ import annotations
 
@@ -28,6 +34,7 @@ from pathlib import Path
 import numpy as np
 
 from harness import core, gen_agilent
+from harness.c16 import Malformed, read_vti  # independent .vti reader (imported, not edited)
 from harness.core import Prop, outcome, tok
 
 try:  # writers finished on branch wip-C03C04; the formats are simply not generated when a file is absent
@@ -121,9 +128,9 @@ def txt(v):
 
 # ----------------------------------------------------------------------------- input formats (pluggable)
 class Fmt:
-    """one loadable input format: `write` creates the file/directory at `path` from the abstract input `spec` and its
-    values [element][row][col]; `direct` is the library call the command line is compared with and returns
-    (structured data, params dict or None, Config or None)"""
+    """one input format: `write` creates the file/directory at `path` from the abstract input `spec` and its values
+    [element][row][col].  Which library loader reads it back is NOT decided here: the driver names the candidates
+    (`c20.plan`) and `call_loader` executes them."""
     name = ""
     is_dir = False
 
@@ -134,9 +141,6 @@ class Fmt:
         raise NotImplementedError
 
     def write(self, path: Path, spec, vals):
-        raise NotImplementedError
-
-    def direct(self, path: Path, spec):
         raise NotImplementedError
 
 
@@ -167,11 +171,6 @@ class NpzFmt(Fmt):
         with path.open("wb") as fp:  # a file object: numpy appends '.npz' to other names
             npz.save(fp, laser)
 
-    def direct(self, path, spec):
-        from pewlib.io import npz
-
-        laser = npz.load(path)
-        return laser.data, None, laser.config
 
 
 class TextFmt(Fmt):
@@ -191,10 +190,6 @@ class TextFmt(Fmt):
         else:
             path.write_text("".join(spec["delimiter"].join(txt(v) for v in row) + "\n" for row in g))
 
-    def direct(self, path, spec):
-        from pewlib.io import textimage
-
-        return textimage.load(path, name="_element_"), {}, None
 
 
 class AgilentFmt(Fmt):
@@ -227,24 +222,27 @@ class AgilentFmt(Fmt):
                                         [[tok(vals[e][li][r]) for e in range(k)] for r in range(R)], k)
             gen_agilent.write_xspecific(d / "AcqData" / "MSTS_XSpecific.xml", masses)
         base = WIN + path.name + "\\"
-        if spec["method"] == "batch_xml":
+        method = spec["method"]
+        # "both_differ": a batch log AND an acquisition method that list the lines in different orders (the first method list
+        # of `load` must win); "none": neither (no collection method of `load` can read the batch); "acq_empty_batchlog": an
+        # acquisition method and a batch log without entries (the first method list finds no data, and `load_info` finds no
+        # <BatchLogInfo> to read: AttributeError, not a ValueError)
+        if method in ("batch_xml", "both_differ"):
             (path / "Method").mkdir()
-            gen_agilent.write_batch_xml(path / "Method" / "BatchLog.xml", [{"result": "Pass", "file": base + nm} for nm in names],
+            order = list(reversed(names)) if method == "both_differ" else names
+            gen_agilent.write_batch_xml(path / "Method" / "BatchLog.xml", [{"result": "Pass", "file": base + nm} for nm in order],
                                         batch_name=path.name)
-        elif spec["method"] == "batch_csv":
+        if method == "batch_csv":
             gen_agilent.write_batch_csv(path / "BatchLog.csv", [{"id": i + 1, "file": base + nm, "result": "Pass"}
                                                                 for i, nm in enumerate(names)])
-        else:
+        if method == "acq_empty_batchlog":
             (path / "Method").mkdir()
+            gen_agilent.write_batch_xml(path / "Method" / "BatchLog.xml", [], batch_name=path.name)
+        if method in ("acq_method_xml", "both_differ", "acq_empty_batchlog"):
+            (path / "Method").mkdir(exist_ok=True)
             gen_agilent.write_acq_method(path / "Method" / "AcqMethod.xml",
                                          [{"name": nm, "mz": mz, "selected": mz} for nm, mz in spec["masses"]], False,
                                          [{"id": i, "file": nm} for i, nm in enumerate(names)])
-
-    def direct(self, path, spec):
-        from pewlib.io import agilent
-
-        data, params = agilent.load(path, collection_methods=[spec["method"]], full=True)
-        return data, params, None
 
 
 class ThermoFmt(Fmt):
@@ -269,11 +267,6 @@ class ThermoFmt(Fmt):
         table = gen_thermo.table_cols(acq) if spec["layout"] == "columns" else gen_thermo.table_rows(acq)
         gen_thermo.write(path, table, spec["delimiter"], "\r\n", spec["bom"])
 
-    def direct(self, path, spec):
-        from pewlib.io import thermo
-
-        data, params = thermo.load(path, full=True)
-        return data, params, None
 
 
 class CsvDirFmt(Fmt):
@@ -314,19 +307,185 @@ class CsvDirFmt(Fmt):
                             "rows": [[c[j] for c in cols] for j in range(L)]})
         gen_csvdir.write_dir(path, {"vendor": spec["vendor"], "entries": entries})
 
-    def direct(self, path, spec):
-        from pewlib.io import csv
-
-        data, params = csv.load(path, full=True)
-        return data, params, None
 
 
-FORMATS = {f.name: f for f in (NpzFmt(), TextFmt(), AgilentFmt(), ThermoFmt(), CsvDirFmt())}
-# HOOK: further loadable formats (e.g. PerkinElmer directories) plug in here with the same three methods.
+class PerkinFmt(Fmt):
+    """PerkinElmer 'XL' directory: one `N.xl` file per image COLUMN (the loader stacks the files along axis 1), optional
+    parameters.conf; `with_csv` adds a csv file (both directory predicates hold: `load` must prefer PerkinElmer)"""
+    name = "perkin"
+    is_dir = True
+
+    def gen(self, rng, k, shape=None, elements=None):
+        h, w = pick_shape(rng, shape, lo_h=2)
+        els = elements or rng.sample(["A", "B", "Eu153", "P31", "Ca44"], rng.choice([1, 2, 2, 3]))
+        return {"fmt": "perkin", "suffix": rng.choice(["", "", ".d", ".xl"]), "h": h, "w": w, "elements": els,
+                "conf": rng.choice([None, None, ["ablation.speed", "acquisition.time", "space.interval"], ["acquisition.time"],
+                                    ["space.interval", "ablation.speed"]]),
+                "with_csv": rng.random() < 0.3, "nans": False}
+
+    def write(self, path, spec, vals):
+        path.mkdir()
+        for c in range(spec["w"]):
+            lines = ["Intensity Vs Time,CPS", ",".join(["Time_in_Seconds"] + spec["elements"])]
+            for r in range(spec["h"]):
+                lines.append(",".join([repr(0.25 * r)] + [txt(vals[e][r][c]) for e in range(len(spec["elements"]))]))
+            (path / f"{c + 1}.xl").write_text("\n".join(lines) + "\n")
+        if spec["conf"]:
+            values = {"ablation.speed": "0.125", "acquisition.time": "0.5", "space.interval": "0.03125"}
+            (path / "parameters.conf").write_text("[section]\n" + "".join(f"{k} = {values[k]}\n" for k in spec["conf"]))
+        if spec["with_csv"]:
+            (path / "01.csv").write_text("A,B\n1.0,2.0\n3.0,4.0\n")
+
+
+class EmptyDirFmt(Fmt):
+    """a directory none of the directory loaders accepts (nothing inside, or only a text file)"""
+    name = "emptydir"
+    is_dir = True
+
+    def gen(self, rng, k, shape=None, elements=None):
+        return {"fmt": "emptydir", "suffix": rng.choice(["", ".d", ".csv", ".npz", ".txt"]), "h": 1, "w": 1, "elements": ["_none_"],
+                "readme": rng.random() < 0.5, "nans": False}
+
+    def write(self, path, spec, vals):
+        path.mkdir()
+        if spec["readme"]:
+            (path / "readme.txt").write_text("1,2\n3,4\n")
+
+
+FORMATS = {f.name: f for f in (NpzFmt(), TextFmt(), AgilentFmt(), ThermoFmt(), CsvDirFmt(), PerkinFmt(), EmptyDirFmt())}
+ORDINARY = ("npz", "txt", "agilent", "thermo", "csvdir")  # the formats of the property's quantifier
+
+# suffixes / layouts outside the ordinary ones: the DISPATCH classes of `load` (case handling, unknown suffixes, directories that
+# look like files and files that look like batches, contents that do not match the name)
+ODD = {
+    "txt": [(".dat", "unknown-suffix"), ("", "unknown-suffix"), (".b", "unknown-suffix"), (".imzML", "unknown-suffix"),
+            (".npz", "name-content-mismatch"), (".CSV", "case"), (".Text", "case"), (".TEXT", "case"), (".Csv", "case")],
+    "npz": [(".dat", "unknown-suffix"), (".txt", "name-content-mismatch"), (".csv", "name-content-mismatch"), (".Npz", "case"),
+            (".nPZ", "case")],
+    "thermo": [(".CSV", "case"), (".Csv", "case"), (".txt", "name-content-mismatch"), (".text", "name-content-mismatch")],
+    "csvdir": [(".b", "name-content-mismatch"), (".B", "name-content-mismatch"), (".npz", "dir-named-like-file"),
+               (".csv", "dir-named-like-file"), (".txt", "dir-named-like-file")],
+    "agilent": [("", "name-content-mismatch"), (".d", "name-content-mismatch")],
+}
+
+
+def oddify(rng, spec):
+    """turn an ordinary input into one of the dispatch classes"""
+    if spec["fmt"] == "agilent" and rng.random() < 0.6:
+        spec["method"] = rng.choice(["both_differ", "both_differ", "none", "acq_empty_batchlog"])
+        spec["odd"] = "agilent:" + spec["method"]
+        return spec
+    if spec["fmt"] in ODD:
+        spec["suffix"], spec["odd"] = rng.choice(ODD[spec["fmt"]])
+    return spec
 
 
 def fmt_names():
-    return [n for n, f in FORMATS.items() if f.available()]
+    return [n for n in ORDINARY if FORMATS[n].available()]
+
+
+# ----------------------------------------------------------------------------- the library, asked directly
+LOADER_NAMES = ("agilent", "perkinelmer", "csv", "npz", "thermo", "textimage")
+
+
+def outcome_of(e: BaseException) -> str:
+    """how `load` sees an exception of a library call: `except ValueError` (with its subclasses) or anything else"""
+    return "ValueError" if isinstance(e, ValueError) else "other"
+
+
+def path_facts(path: Path):
+    """what `load` can ask the library about a path (every answer is the library's, none is computed here)"""
+    from pewlib.io import agilent, csv, perkinelmer, thermo
+
+    f = {"exists": path.exists(), "is_dir": path.is_dir(), "perkin_valid": bool(perkinelmer.is_valid_directory(path)),
+         "csv_valid": bool(csv.is_valid_directory(path)), "info": {"outcome": "ok"}}
+    try:
+        f["sniff"] = {"outcome": "ok", "format": str(thermo.icap_csv_sample_format(path))}
+    except Exception as e:  # noqa: BLE001
+        f["sniff"] = {"outcome": outcome_of(e)}
+    if f["is_dir"]:
+        try:
+            agilent.load_info(path)
+        except Exception as e:  # noqa: BLE001
+            f["info"] = {"outcome": outcome_of(e)}
+    return f
+
+
+def call_loader(desc, path: Path):
+    """execute ONE library call named by the driver (`c20.plan`) -> the call record sent back to it"""
+    from pewlib.io import agilent, csv, npz, perkinelmer, textimage, thermo
+
+    rec = dict(desc)
+    try:
+        params, config = None, None
+        name = desc["loader"]
+        if name == "agilent":
+            data, params = agilent.load(path, collection_methods=list(desc["methods"]), full=True)
+        elif name == "perkinelmer":
+            data, params = perkinelmer.load(path, full=True)
+        elif name == "csv":
+            data, params = csv.load(path, full=True)
+        elif name == "thermo":
+            data, params = thermo.load(path, full=True)
+        elif name == "textimage":
+            data, params = textimage.load(path, name="_element_"), {}
+        elif name == "npz":
+            laser = npz.load(path)
+            data, config = laser.data, laser.config
+        else:
+            raise core.InternalError(f"driver named an unknown loader {desc}")
+        if data.ndim != 2 or data.dtype.names is None:
+            raise core.InternalError(f"loader {desc} returned an array of shape {data.shape} / dtype {data.dtype}")
+        names = list(data.dtype.names)
+        rec.update({"outcome": "ok", "h": int(data.shape[0]), "w": int(data.shape[1]),
+                    "fields": [{"name": n, "data": [t for row in grid_tokens(data[n]) for t in row]} for n in names],
+                    "params": param_tokens(params), "config": None if config is None else cfg_tokens(config)})
+        rec["_data"] = data
+    except core.InternalError:
+        raise
+    except Exception as e:  # noqa: BLE001
+        rec["outcome"] = outcome_of(e)
+    return rec
+
+
+class LoaderSpy:
+    """thin wrappers around the six library loaders: record (loader, path, collection methods, how the call ended) and
+    delegate; installed only while `main()` runs in process"""
+
+    def __init__(self):
+        import pewlib.io as pio
+
+        self.mods = {n: getattr(pio, n) for n in LOADER_NAMES}
+        self.orig = {}
+        self.calls = []
+
+    def __enter__(self):
+        for name, mod in self.mods.items():
+            orig = self.orig[name] = mod.load
+
+            def wrapper(path, *a, _name=name, _orig=orig, **k):
+                rec = {"loader": _name, "path": str(Path(path).resolve()), "methods": k.get("collection_methods"), "ok": False}
+                self.calls.append(rec)
+                out = _orig(path, *a, **k)
+                rec["ok"] = True
+                return out
+
+            mod.load = wrapper
+        return self
+
+    def __exit__(self, *exc):
+        for name, mod in self.mods.items():
+            mod.load = self.orig[name]
+        return False
+
+    def delivered(self, path: Path):
+        """-> None when no loader was called for this path, else (name, methods) of the last call that returned,
+        or ("fail", None)"""
+        mine = [c for c in self.calls if c["path"] == str(path.resolve())]
+        if not mine:
+            return None
+        good = [c for c in mine if c["ok"]]
+        return (good[-1]["loader"], good[-1]["methods"]) if good else ("fail", None)
 
 
 # ----------------------------------------------------------------------------- shape classes
@@ -437,18 +596,43 @@ class C20(Prop):
             "distinct values with full mantissas (spikes for the filters, NaNs), stacks of one instrument import followed by npz files, element subsets incl. unknown names, names present in only some inputs and inputs left with no element, "
             "--config, both filters with windows 3/5/7 and thresholds 0..3, both orientations, NaN/finite/default pad, output omitted / "
             "existing directory / file (lower and upper case suffix) / mismatching suffix / missing directory / file with several inputs, "
-            "formats .npz .csv .vtk and an invalid one, a missing input; run in process (main() with patched argv) and as "
+            "formats .npz .csv .vtk (the written .vti decoded and compared) and an invalid one, a missing input, stack --calibrate; "
+            "about a seventh of the command lines hold one input of a DISPATCH class of `load` (every one also as a targeted case): "
+            "mixed-case suffixes (.CSV .Text .Npz .B), unknown suffixes (.dat, none, .imzML, a FILE named *.b), contents that do not match the "
+            "name (text named .npz, npz named .txt/.csv, Thermo CSV named .txt, CSV directory named *.b, Agilent batch not named *.b), "
+            "directories named like files (*.npz, *.csv, *.txt), an Agilent batch whose batch log and acquisition method list the lines in "
+            "different orders (the first method list must win) or that no method can read, PerkinElmer directories with each "
+            "parameters.conf variant and with a csv file beside the .xl files (PerkinElmer must win), directories without data; "
+            "run in process (main() with patched argv; thin delegating wrappers record which library loader delivered each input) and as "
             "`python -m pewlib` subprocess; non-trivial = at least one file written or a rejected combination; distinct by case hash")
-    trusted = ["the library loaders (io.npz.load, io.textimage.load, io.agilent.load, io.thermo.load, io.csv.load) and the library filters "
-               "called directly are the reference the command line is compared with (they are the subject of C01-C04/C17, not of C20)",
-               "written files are read back with io.npz.load / io.textimage.load; .vtk outputs are only checked for their location",
+    trusted = ["the library loaders (io.npz.load, io.textimage.load, io.agilent.load, io.thermo.load, io.csv.load, io.perkinelmer.load), the "
+               "library predicates `load` consults (is_valid_directory x2, icap_csv_sample_format, load_info) and the library filters, called "
+               "directly, are the reference the command line is compared with (they are the subject of C01-C04/C13/C17, not of C20); WHICH loader "
+               "is called for a path is decided by the Lean table (`c20.plan`), never by Python",
+               "written files are read back with io.npz.load / io.textimage.load; .vtk outputs with the independent .vti reader of "
+               "harness/c16.py (element names, every value, and the spacing, which the harness derives from the model's configuration "
+               "through the library's Config.get_pixel_width / get_pixel_height and spotsize / 2)",
                "pathlib splits the generated names as the harness does (ASCII stems without leading/trailing dots)",
                "in-process runs replace io.csv's ProcessPoolExecutor by an executor that runs each task at submit (pool workers may not "
-               "start processes); subprocess runs use the real one"]
+               "start processes) and wrap the six `io.<format>.load` functions in recording, delegating wrappers; subprocess runs use the real ones",
+               "the driver realises the opaque library filter as a table keyed by the CONTENT (shape and every token) of the grid the model hands "
+               "to it; a grid the harness did not filter gives a grid of -1"]
     assumptions = ["an input that is left with no requested element is skipped without output (the code prints 'skipping'); the property "
                    "text does not say otherwise",
                    "stack inputs share their element names (np.concatenate cannot join different structured dtypes); --elements lists "
                    "have no duplicates; derived output names are pairwise distinct",
+                   "a derived output name that is an existing directory (a directory input named *.npz converted to .npz beside itself) is "
+                   "counted as undetermined: the property does not say what happens (pewlib: IsADirectoryError, nothing written)",
+                   "exit statuses are compared as ok / error only; whether a failing load ends as a usage error (status 2) or a traceback "
+                   "is in the model and reported as the feature exit-code-as-modelled / exit-code-differs (the property text does not name exit codes)",
+                   "`__main__.load(path)` is also called directly for every input (when the module has a function of that name) and its "
+                   "image - elements, every value, stored configuration - or its failure compared with the model's and the specification's load of "
+                   "the path; the exception class (ValueError or not) is a feature (load-exception-as-modelled)",
+                   "which loader delivered an input is compared by loader (agilent, perkinelmer, csv, npz, thermo, textimage) where the in-process "
+                   "wrappers saw a call for that path; the Agilent collection-method list is a feature (agilent-methods-as-modelled), its effect is "
+                   "compared through the data (batches whose methods disagree)",
+                   "`io.agilent.load_info` raising ValueError (the loop then keeps the data in hand and tries the next method list) is in the model "
+                   "and the theorem but no generated batch makes it do so (a batch log without entries makes it raise AttributeError: generated)",
                    ]
 
     # ------------------------------------------------------------------ generator
@@ -525,6 +709,27 @@ class C20(Prop):
                     s["nans"] = False
                 shape = shape or (s["h"], s["w"])
                 inputs.append(s)
+        # ---- dispatch classes of `load`: one input of about a seventh of the command lines is not an ordinary one
+        # force["odd"]: False | True | {"fmt": "perkin" | "emptydir"} | {"fields": {...}} (replace / patch input 0)
+        odd = force["odd"] if "odd" in force else (rng.random() < (0.16 if cmd != "stack" else 0.06) and not large and not eqcount)
+        if isinstance(odd, dict):
+            s0 = inputs[0]
+            if "fmt" in odd:
+                inputs[0] = self.gen_input(rng, 0, odd["fmt"], s0["stem"], s0["sub"], spikes=(cmd == "filter"))
+            inputs[0] = {**inputs[0], **odd.get("fields", {})}
+        elif odd:
+            i = rng.randrange(n)
+            s0 = inputs[i]
+            r = rng.random()
+            if cmd == "stack":  # stack keeps its shared element names: only npz / text inputs change their suffix
+                if s0["fmt"] in ("npz", "txt"):
+                    inputs[i] = oddify(rng, s0)
+            elif r < 0.25:
+                inputs[i] = self.gen_input(rng, i, "perkin", s0["stem"], s0["sub"], spikes=(cmd == "filter"))
+            elif r < 0.35:
+                inputs[i] = self.gen_input(rng, i, "emptydir", s0["stem"], s0["sub"])
+            else:
+                inputs[i] = oddify(rng, s0)
         fmt_out = force.get("format", rng.choice([".npz", ".npz", ".npz", ".csv", ".csv", ".vtk", ".txt" if rng.random() < 0.15 else ".npz"]))
         # ---- output
         if cmd == "stack":
@@ -547,8 +752,10 @@ class C20(Prop):
             output = {"kind": "file", "sub": rng.choice(["", "out"]), "name": "res" + bad}
         elif okind == "missing_dir":
             output = {"kind": "file", "sub": "", "name": rng.choice(["newdir", "nodir.d"])}
-        case = {"cmd": cmd, "mode": mode, "inputs": inputs, "format": fmt_out, "output": output, "missing_input": rng.random() < 0.03,
-                "relative": rng.random() < 0.25}
+        case = {"cmd": cmd, "mode": mode, "inputs": inputs, "format": fmt_out, "output": output,
+                "missing_input": force.get("missing_input", rng.random() < 0.03), "relative": rng.random() < 0.25}
+        if cmd == "stack":  # `--calibrate`: accepted by the parser, `raise NotImplementedError` in `stack`
+            case["calibrate"] = force.get("calibrate", rng.random() < 0.05)
         # ---- command options
         all_els = []
         for s in inputs:
@@ -609,6 +816,42 @@ class C20(Prop):
                        "config": None, "elements": None, "filter": {"type": "median", "size": 3, "threshold": 0.5},
                        "inputs": [{"fmt": "csvdir", "suffix": suffix, "h": 3, "w": 4, "elements": ["A", "B"], "vendor": "nu", "xy": True,
                                    "nans": False, "stem": "nu", "sub": "", "seed": 11, "spikes": True}]}
+        # the dispatch classes of `load`: every odd suffix / layout once (convert, one input), the Agilent method variants,
+        # PerkinElmer directories (with and without a csv beside the .xl files, every parameters.conf variant), an
+        # unsupported directory; a failing load AFTER a good one (nothing may be written); `--calibrate`
+        i = 0
+        for fmt, variants in ODD.items():
+            if fmt not in fmt_names():
+                continue
+            for suffix, cls in variants:
+                rng = random.Random(f"C20-targeted-odd-{i}")
+                i += 1
+                yield self.build(rng, "quick", rng.choice(["convert", "convert", "filter"]), n=1, okind="omitted", format=".npz", mode="inproc",
+                                 fmt=fmt, eqcount=False, large=False, missing_input=False, odd={"fields": {"suffix": suffix, "odd": cls}})
+        for method in ("both_differ", "none", "acq_empty_batchlog", "batch_xml", "batch_csv", "acq_method_xml"):
+            for mode in ("inproc", "subproc"):
+                rng = random.Random(f"C20-targeted-agilent-{method}")
+                yield self.build(rng, "quick", "convert", n=1, okind="dir", format=".npz", mode=mode, fmt="agilent", eqcount=False,
+                                 large=False, missing_input=False, odd={"fields": {"method": method, "odd": "agilent:" + method, "h": 3}})
+        for j, (conf, with_csv, suffix) in enumerate([(None, False, ""), (["ablation.speed", "acquisition.time", "space.interval"], True, ".d"),
+                                                      (["acquisition.time"], False, ".xl"), (["space.interval", "ablation.speed"], True, "")]):
+            rng = random.Random(f"C20-targeted-perkin-{j}")
+            yield self.build(rng, "quick", ["convert", "filter"][j % 2], n=1 + j % 2, okind="dir", format=[".npz", ".vtk"][j // 2], mode="inproc",
+                             fmt="npz", eqcount=False, large=False, missing_input=False,
+                             odd={"fmt": "perkin", "fields": {"conf": conf, "with_csv": with_csv, "suffix": suffix}})
+        for j, suffix in enumerate(["", ".d", ".csv", ".npz", ".b"]):
+            rng = random.Random(f"C20-targeted-emptydir-{j}")
+            yield self.build(rng, "quick", "convert", n=1 + j % 2, okind="omitted", format=".npz", mode="inproc", fmt="npz", eqcount=False,
+                             large=False, missing_input=False, odd={"fmt": "emptydir", "fields": {"suffix": suffix, "readme": bool(j % 2)}})
+        for j, cal in enumerate([True, True, False]):
+            rng = random.Random(f"C20-targeted-calibrate-{j}")
+            yield self.build(rng, "quick", "stack", n=2, okind="file", format=".npz", mode=["inproc", "subproc", "inproc"][j], stack_fmt="npz",
+                             eqcount=False, odd=False, calibrate=cal, missing_input=False)
+        for j in range(4):  # every format to .vtk (the written .vti is decoded and compared)
+            rng = random.Random(f"C20-targeted-vtk-{j}")
+            yield self.build(rng, "quick", ["convert", "filter", "stack", "convert"][j], n=2, okind=["dir", "omitted", "file", "dir"][j],
+                             format=".vtk", mode="inproc", eqcount=False, large=False, odd=False, calibrate=False, missing_input=False,
+                             **({"stack_fmt": "npz"} if j == 2 else {}))
         # three inputs, the middle one the largest on the other axis; all sizes different
         for orient in ("vertical", "horizontal"):
             def inp(k, stem, h, w):
@@ -692,30 +935,35 @@ class C20(Prop):
                 argv += ["--orientation", case["orientation"]]
             if case["pad"] != "default":
                 argv += ["--pad", "nan" if case["pad"] == "nan" else repr(case["pad"])]
+            if case.get("calibrate"):
+                argv += ["--calibrate"]
         return argv
 
     def run_cli(self, case, root: Path, argv):
-        """-> 'ok' | 'error'"""
+        """-> ('ok' | 'error', exit kind 'ok' | 'usage' | 'crash', LoaderSpy or None)"""
+        def kind(code):
+            return "ok" if code in (0, None) else "usage" if code == 2 else "crash"
         if case["mode"] == "subproc":
             env = dict(os.environ)
             env["PYTHONPATH"] = str(core.REPO / "src")
             r = subprocess.run([sys.executable, "-m", "pewlib"] + argv, cwd=root, env=env, capture_output=True, timeout=120)
-            return "ok" if r.returncode == 0 else "error"
+            return ("ok" if r.returncode == 0 else "error"), kind(r.returncode), None
         import pewlib.__main__ as cli
 
         old_argv, old_cwd = sys.argv, os.getcwd()
         sink = _io.StringIO()
+        spy = LoaderSpy()
         try:
             sys.argv = ["pewlib"] + argv
             os.chdir(root)
-            with contextlib.redirect_stdout(sink), contextlib.redirect_stderr(sink):
+            with contextlib.redirect_stdout(sink), contextlib.redirect_stderr(sink), spy:
                 try:
                     ret = cli.main()
-                    return "ok" if ret in (0, None) else "error"
+                    return ("ok" if ret in (0, None) else "error"), kind(ret), spy
                 except SystemExit as e:
-                    return "ok" if e.code in (0, None) else "error"
+                    return ("ok" if e.code in (0, None) else "error"), kind(e.code), spy
                 except Exception:
-                    return "error"
+                    return "error", "crash", spy
         finally:
             sys.argv = old_argv
             os.chdir(old_cwd)
@@ -737,7 +985,19 @@ class C20(Prop):
                 g = textimage.load(p)
                 out.update({"kind": "csv", "shape": list(g.shape), "data": grid_tokens(g)})
             elif suffix == ".vtk":
-                out["kind"] = "vtk"
+                f = read_vti(p.read_bytes())  # the independent reader of harness/c16.py
+                nx, ny, nz = f["whole"][1::2]
+                if f["whole"][0::2] != [0, 0, 0] or f["piece"] != f["whole"] or nz != 1:
+                    raise Malformed("extent")
+                grids = []
+                for a in f["arrays"]:
+                    if len(a["values"]) != nx * ny:
+                        raise Malformed("array size")
+                    # x fastest, then y; x runs along the columns, y is counted from the bottom row
+                    cube = np.array(a["values"], dtype="<i8").view("<f8").reshape((ny, nx))[::-1, :]
+                    grids.append(grid_tokens(cube))
+                out.update({"kind": "vtk", "elements": [a["name"] for a in f["arrays"]], "shape": [ny, nx], "data": grids,
+                            "spacing": [ctok(x) for x in f["spacing"]]})
             else:
                 out["kind"] = "other"
         except Exception as e:
@@ -758,13 +1018,14 @@ class C20(Prop):
 
     def _evaluate(self, case, ctx):
         from pewlib import Config
+        from pewlib.config import SpotConfig
         from pewlib.process import filters
 
         root = ctx.tmpdir()
         cmd = case["cmd"]
         feats = {f"cmd:{cmd}", f"mode:{case['mode']}", f"format:{case['format']}"}
         # ---- 1. inputs
-        rels, refs = [], []
+        rels = []
         for k, spec in enumerate(case["inputs"]):
             fmt = FORMATS[spec["fmt"]]
             if not fmt.available():
@@ -774,12 +1035,10 @@ class C20(Prop):
             vals = make_values(spec["seed"], k, len(spec["elements"]), spec["h"], spec["w"], spec["spikes"], spec["nans"],
                                spec.get("flat", False))
             fmt.write(root / rel, spec, vals)
-            data, params, config = fmt.direct(root / rel, spec)
-            if list(data.dtype.names) != list(spec["elements"]) or tuple(data.shape) != (spec["h"], spec["w"]):
-                raise core.InternalError(f"writer/loader disagree for {spec['fmt']}: {data.dtype.names} {data.shape} vs {spec}")
             rels.append(rel)
-            refs.append((data, params, config))
             feats.add("in:" + spec["fmt"])
+            if spec.get("odd"):
+                feats.add("in-odd:" + spec["odd"])
         # ---- output location
         out_rel, out_is_dir = None, False
         o = case["output"]
@@ -794,63 +1053,154 @@ class C20(Prop):
         run_rels = list(rels)
         if case["missing_input"]:
             run_rels.append(Path("absent.npz"))
-        # ---- 2. abstract description for the driver
+        # ---- 2. what the library says about every path; the driver's table names the loaders to call; their results
+        sources = []
+        for rel in run_rels:
+            sources.append({"path": model_path(rel), **path_facts(root / rel), "calls": []})
+        plan = ctx.driver.call("c20.plan", sources=sources)["candidates"]
+        datas = []  # per source: the arrays of the successful calls (for the filter table)
+        for src, rel, cands in zip(sources, run_rels, plan):
+            recs = [call_loader(c, root / rel) for c in cands]
+            datas.append([r.pop("_data") for r in recs if r["outcome"] == "ok"])
+            src["calls"] = recs
+        for spec, src in zip(case["inputs"], sources):  # writer / loader sanity for the ordinary inputs
+            good = [r for r in src["calls"] if r["outcome"] == "ok"]
+            if not spec.get("odd") and spec["fmt"] in ORDINARY + ("perkin",) and (
+                    not good or [f["name"] for f in good[0]["fields"]] != list(spec["elements"])
+                    or (good[0]["h"], good[0]["w"]) != (spec["h"], spec["w"])):
+                raise core.InternalError(f"writer/loader disagree for {spec['fmt']}: {[(r['loader'], r['outcome']) for r in src['calls']]} vs {spec}")
         default = Config()
-        fparams = None
+        undetermined = False
+        changed_by_filter = False
+        table = []
         if cmd == "filter":
             f = case["filter"]
             func = filters.rolling_median if f["type"] == "median" else filters.rolling_mean
-            fparams = (func, 5 if f["size"] is None else f["size"], 3.0 if f["threshold"] is None else f["threshold"])
-        dinputs = []
-        undetermined = False
-        changed_by_filter = False
-        for k, (spec, rel, (data, params, config)) in enumerate(zip(case["inputs"], rels, refs)):
-            names = list(data.dtype.names)
-            d = {"path": model_path(rel), "exists": True, "h": data.shape[0], "w": data.shape[1],
-                 "fields": [{"name": n, "data": [t for row in grid_tokens(data[n]) for t in row]} for n in names],
-                 "config": None if config is None else cfg_tokens(config),
-                 "params": param_tokens(params),
-                 "filtered": None}
-            if fparams is not None:
-                func, size, thr = fparams
-                try:
-                    with np.errstate(all="ignore"):
-                        filt = [func(np.array(data[n]), size, thr) for n in names]
-                    d["filtered"] = [{"name": n, "data": [t for row in grid_tokens(g) for t in row]} for n, g in zip(names, filt)]
-                    if any(x["data"] != y["data"] for x, y in zip(d["fields"], d["filtered"])):
-                        changed_by_filter = True
-                except Exception:
-                    undetermined = True  # the library filter itself rejects these arguments: nothing to compare with
-                    d["filtered"] = d["fields"]
-            dinputs.append(d)
-        if case["missing_input"]:
-            dinputs.append({"path": model_path(Path("absent.npz")), "exists": False, "h": 0, "w": 0, "fields": [], "config": None,
-                            "params": [None, None, None], "filtered": None})
-        req = {"cmd": cmd, "defaults": cfg_tokens(default)[1:], "inputs": dinputs, "format": case["format"],
-               "output": None if out_rel is None else model_path(out_rel), "output_is_dir": out_is_dir}
+            size, thr = (5 if f["size"] is None else f["size"]), (3.0 if f["threshold"] is None else f["threshold"])
+            seen = set()
+            for arrays in datas:
+                for data in arrays:
+                    for n in data.dtype.names:
+                        src_t = [t for row in grid_tokens(data[n]) for t in row]
+                        key = (data.shape, tuple(src_t))
+                        if key in seen:
+                            continue
+                        seen.add(key)
+                        try:
+                            with np.errstate(all="ignore"):
+                                dst_t = [t for row in grid_tokens(func(np.array(data[n]), size, thr)) for t in row]
+                        except Exception:
+                            undetermined = True  # the library filter itself rejects these arguments: nothing to compare with
+                            dst_t = src_t
+                        changed_by_filter = changed_by_filter or dst_t != src_t
+                        table.append({"h": int(data.shape[0]), "w": int(data.shape[1]), "src": src_t, "dst": dst_t})
+        req = {"cmd": cmd, "calibrate": bool(case.get("calibrate")), "defaults": cfg_tokens(default)[1:], "sources": sources,
+               "format": case["format"], "output": None if out_rel is None else model_path(out_rel), "output_is_dir": out_is_dir}
         if cmd == "convert":
             req["config"] = None if case["config"] is None else ["raster"] + [ctok(x) for x in case["config"]]
             req["elements"] = case["elements"]
         elif cmd == "filter":
             req["elements"] = case["elements"]
+            req["filter_table"] = table
         else:
             req["orientation"] = case["orientation"] or "vertical"
             req["pad"] = NAN_TOK if case["pad"] in ("default", "nan") else ctok(case["pad"])
         rep = ctx.driver.call("c20.run", **req)
-        model = {"status": rep["model"]["status"], "files": canon_files(rep["model"]["files"])}
-        spec_ = {"status": rep["spec"]["status"], "files": canon_files(rep["spec"]["files"])}
-        # ---- 3. run and observe the files written
+
+        def spacing_of(cfg):
+            """the spacing `save` hands to io.vtk.save, from the configuration of the model's image, through the library's
+            own Config classes"""
+            c = SpotConfig(core.untok(cfg[1]), core.untok(cfg[2])) if cfg[0] == "spot" else Config(*[core.untok(t) for t in cfg[1:]])
+            return [ctok(c.get_pixel_width()), ctok(c.get_pixel_height()), ctok(c.spotsize / 2.0)]
+
+        def side(r):
+            files = []
+            for f in canon_files(r["files"]):
+                if f["kind"] == "vtk":
+                    f = {k: v for k, v in f.items() if k != "config"} | {"spacing": spacing_of(f["config"])}
+                files.append(f)
+            return {"status": r["status"], "files": files}
+        model, spec_ = side(rep["model"]), side(rep["spec"])
+        # a derived output name that is an existing DIRECTORY (a directory input named like the output format, output omitted):
+        # the property does not say what happens then (pewlib: IsADirectoryError) -> counted, never a violation
+        if any((root / f["path"][len(ROOT) + 1:]).is_dir() for f in spec_["files"]):
+            undetermined = True
+            feats.add("output-collides-with-directory")
+        # ---- 2b. `__main__.load(path)` itself, called directly for every existing input (both run modes): the image it returns
+        # (elements, every value, stored configuration) or that it fails, against the driver's `loadMech` / `loadSpec` of the path
+        import pewlib.__main__ as cli_mod
+
+        def load_side(x):
+            if "fail" in x:
+                return "fail"
+            return {k: x[k] for k in ("elements", "shape", "data", "config")}
+        if hasattr(cli_mod, "load"):
+            direct, kinds = [], []
+            for rel, src in zip(run_rels, sources):
+                if not src["exists"]:
+                    direct.append(None)
+                    kinds.append(None)
+                    continue
+                try:
+                    with np.errstate(all="ignore"):
+                        laser = cli_mod.load(root / rel)
+                    names = list(laser.data.dtype.names)
+                    direct.append({"elements": names, "shape": list(laser.data.shape), "data": [grid_tokens(laser.data[n]) for n in names],
+                                   "config": cfg_tokens(laser.config)})
+                    kinds.append(None)
+                except Exception as e:  # noqa: BLE001
+                    direct.append("fail")
+                    kinds.append("usage" if isinstance(e, ValueError) else "crash")
+            mask = [d is not None for d in direct]
+            load_legs = (direct, [load_side(x) if m else None for x, m in zip(rep["model_loads"], mask)],
+                         [load_side(x) if m else None for x, m in zip(rep["spec_loads"], mask)])
+            for k_, x in zip(kinds, rep["spec_loads"]):
+                if k_ is not None and "fail" in x:
+                    feats.add("load-exception-" + ("as-modelled" if k_ == x["fail"] else f"differs:{k_}-for-{x['fail']}"))
+            feats.add("load-called-directly")
+        else:  # a rewrite without a function `load`: this leg is not observable
+            load_legs = (None, None, None)
+        # ---- 3. run and observe the files written (and, in process, the loader that delivered each input)
         before = snapshot(root)
         argv = self.argv_of(case, root, run_rels, out_rel)
         with np.errstate(all="ignore"):
-            status = self.run_cli(case, root, argv)
+            status, exit_kind, spy = self.run_cli(case, root, argv)
         after = snapshot(root)
         written = sorted(p for p in after if before.get(p) != after[p])
         removed = sorted(p for p in before if p not in after)
         impl = {"status": status, "files": [self.read_back(root, p) for p in written]}
         if removed:
             impl["removed"] = removed
+
+        def lname(x):
+            return x["loader"] if "loader" in x else "fail"
+        seen_by = [None if spy is None else spy.delivered(root / rel) for rel in run_rels]
+        # (a load the model AND the specification call failed is compared through the exit status: the wrappers cannot see a
+        # failure of `load` that comes after a loader call that returned, e.g. of `load_info`)
+        failed = ["fail" in x and "fail" in y for x, y in zip(rep["model_loaders"], rep["spec_loaders"])]
+        impl["loaders"] = [None if d is None else "fail" if f else d[0] for d, f in zip(seen_by, failed)]
+        # the model is asked only about inputs whose loading was observed (a run that fails earlier never reaches the others)
+        model["loaders"] = [None if d is None else lname(x) for d, x in zip(seen_by, rep["model_loaders"])]
+        spec_["loaders"] = [None if d is None else lname(x) for d, x in zip(seen_by, rep["spec_loaders"])]
+        impl["load"], model["load"], spec_["load"] = load_legs
         # ---- features
+        for d, x, src in zip(seen_by, rep["spec_loaders"], sources):
+            if not src["exists"]:
+                continue
+            feats.add("load:" + (x["loader"] if "loader" in x else "fail-" + x["fail"]))
+            if "loader" in x and x["loader"] == "agilent":
+                feats.add("load:agilent-methods=" + "+".join(x["methods"]))
+                if d is not None and d[0] == "agilent":
+                    feats.add("agilent-methods-" + ("as-modelled" if list(d[1] or []) == x["methods"] else "differ"))
+            if d is not None:
+                feats.add("loader-observed")
+        load_fail = next((x["fail"] for x, src in zip(rep["spec_loaders"], sources) if src["exists"] and "fail" in x), None)
+        if load_fail is not None and not case["missing_input"] and case["format"] in (".npz", ".csv", ".vtk"):
+            feats.add("exit-code-" + ("as-modelled" if exit_kind == load_fail else f"differs:{exit_kind}-for-{load_fail}"))
+        if any(f["kind"] == "vtk" and "data" in f for f in impl["files"]):
+            feats.add("vtk-data-compared")
+        if case.get("calibrate"):
+            feats.add("calibrate")
         n = len(case["inputs"])
         feats.add("n1" if n == 1 else "n2" if n == 2 else "n>=3")
         shapes = {(s["h"], s["w"]) for s in case["inputs"]}
@@ -910,7 +1260,9 @@ class C20(Prop):
                 yield {**case, "inputs": ins[:i] + ins[i + 1:]}
         for i, s in enumerate(ins):
             for key in ("h", "w"):
-                lo = 2 if (key == "w" and s["fmt"] in ("agilent", "thermo", "csvdir")) else 1
+                lo = 2 if (key == "w" and s["fmt"] in ("agilent", "thermo", "csvdir")) or (key == "h" and s["fmt"] == "perkin") else 1
+                if s["fmt"] == "emptydir":
+                    continue
                 for step in (256, 64, 16, 4):  # long sides of the `large` filter class
                     if s[key] - step >= max(lo, 8):
                         yield {**case, "inputs": ins[:i] + [{**s, key: s[key] - step}] + ins[i + 1:]}
@@ -930,6 +1282,8 @@ class C20(Prop):
             yield {**case, "config": None}
         if case["missing_input"]:
             yield {**case, "missing_input": False}
+        if case.get("calibrate"):
+            yield {**case, "calibrate": False}
 
 
 PROP = C20()
